@@ -21,6 +21,7 @@ obligation C11_src_shape fails."""
 import ast, os
 
 from .pyexpr import TranslateError
+from . import c11norm
 
 SITES = [
     # (key, file, class, function, mode, skeleton)
@@ -250,7 +251,7 @@ def _find_function(tree, cls, fn, where):
             hits = [n for n in node.body if isinstance(n, ast.FunctionDef) and n.name == fn]
             if len(hits) != 1:
                 raise TranslateError('%s: %d definitions of %s.%s' % (where, len(hits), cls, fn))
-            return hits[0]
+            return hits[0], node
     raise TranslateError('%s: class %s not found' % (where, cls))
 
 
@@ -274,14 +275,15 @@ def _mrs_assignments(fn):
 def _match_site(repo, key, path, cls, fn, mode, skeleton, binds):
     where = '%s:%s.%s' % (path, cls, fn)
     src = open(os.path.join(repo, path)).read()
-    f = _find_function(ast.parse(src), cls, fn, where)
+    f, cnode = _find_function(ast.parse(src), cls, fn, where)
     sk = ast.parse(skeleton.strip() + '\n').body
     if mode == 'whole':
-        f.body = _strip(f.body)
+        # both sides go through the same behaviour-preserving normalisation (see c11norm.py): private helpers
+        # of the class inlined, idioms brought to one form, locals renamed by order of first binding
+        c11norm.normalise(f, cnode)
         f.decorator_list = []
         f.returns = None
-        skf = sk[0]
-        skf.body = _strip(skf.body)
+        skf = c11norm.normalise(sk[0])
         _unify(skf, f, binds, where)
     elif mode == 'mrs':
         hits = _mrs_assignments(f)
